@@ -39,7 +39,7 @@ func init() {
 			"position fields the restorer leaves NoPos are outside the statement (it speaks of positions the restorer assigns) and are only counted",
 			"a comment-token inversion that gofmt itself produces when the comment is spliced textually before the token is attributed to go/printer, not to dst",
 		},
-		Required: map[string]int{"configs": 9},
+		Required: map[string]int{"configs": 10},
 	})
 }
 
@@ -122,7 +122,13 @@ func c12Check(c *fw.Ctx, label, cfg string, r *decorator.Restorer, df *dst.File,
 		Dec:   func(nodeType, point, text string, cursor, cnl int) { cursors = append(cursors, cursor) },
 		Space: func(nodeType, position string, space, newlines, cursor int) { cursors = append(cursors, cursor) },
 	})
-	sig, detail := fw.Try(func() { rf, err = r.RestoreFile(df) })
+	sig, detail := fw.Try(func() {
+		if c12Via != nil {
+			rf, err = c12Via(df)
+		} else {
+			rf, err = r.RestoreFile(df)
+		}
+	})
 	verifhook.Set(nil)
 	if sig != "" {
 		c.Violate("restore-panic", sig, label+" ["+cfg+"]\n"+detail, src)
@@ -226,6 +232,22 @@ func c12Check(c *fw.Ctx, label, cfg string, r *decorator.Restorer, df *dst.File,
 		// format.Node sorted an import block (ast.SortImports): positions of specs and their
 		// comments are permuted by go/format, the order comparison does not apply to this file
 		c.Count("inconclusive_imports_sorted_by_go_format", 1)
+		return 0
+	}
+	// extents: the operand of a selector ends before the selected name begins (there is a dot in
+	// between), as in any parsed file; positions that fail this cannot be used to report where the
+	// two identifiers are
+	extentBad := ""
+	ast.Inspect(rf, func(n ast.Node) bool {
+		if se, ok := n.(*ast.SelectorExpr); ok && extentBad == "" && se.X != nil && se.Sel != nil {
+			if se.X.Pos().IsValid() && se.Sel.Pos().IsValid() && se.X.End() >= se.Sel.Pos() {
+				extentBad = fmt.Sprintf("selector %v.%s: operand occupies [%d,%d), the selected name starts at %d", se.X, se.Sel.Name, se.X.Pos(), se.X.End(), se.Sel.Pos())
+			}
+		}
+		return true
+	})
+	if extentBad != "" {
+		viol("extents-overlap", "extents-overlap:SelectorExpr", extentBad)
 		return 0
 	}
 	rs, fs := astSeqNoComments(rf), astSeqNoComments(ff)
@@ -497,6 +519,10 @@ func isSep(b byte) bool {
 // arrow; the implicit semicolon of an empty statement; the range keyword; the file extent).
 var c12Unmodelled = map[string]bool{"ChanType.Arrow": true, "EmptyStmt.Semicolon": true, "File.FileEnd": true, "File.FileStart": true, "RangeStmt.Range": true}
 
+// c12Via, when set, replaces Restorer.RestoreFile in c12Check (a FileRestorer of the same Restorer
+// that has state from earlier files).
+var c12Via func(*dst.File) (*ast.File, error)
+
 func runC12(c *fw.Ctx) {
 	files := corpus.Sample(c.Rand("files"), c.Pick(160, 4000))
 	var shared *token.FileSet
@@ -614,6 +640,42 @@ func runC12(c *fw.Ctx) {
 				c.Max("files_in_shared_fileset", int64(sharedN))
 				if i < 2 {
 					c.Sample(map[string]interface{}{"case": id, "positions_compared": n})
+				}
+			})
+		}
+	}
+	// one import-managing FileRestorer for several files whose imports are given other names from
+	// file to file (alias overrides changed between the files, aliases written in the sources): the
+	// positions of every file are judged like those of a single restore
+	if c.Shard == 0 {
+		srcs := []string{
+			"package p\n\nimport \"fmt\"\n\nfunc a() {\n\tfmt.Println(fmt.Sprint(1), 2) // one\n}\n",
+			"package p\n\nimport (\n\t\"fmt\"\n\t\"os\"\n)\n\n// b prints.\nfunc b() {\n\tfmt.Fprintln(os.Stdout, fmt.Sprint(os.Args)) /* two */\n}\n",
+			"package p\n\nimport out \"fmt\"\n\nvar x = out.Sprint(out.Sprint(3))\n",
+		}
+		aliasSeqs := [][]string{{"f", "format", "f"}, {"format", "f", ""}, {"", "fmtpkg", "f"}, {"a", "abcdefghijkl", "b"}}
+		for ai, seq := range aliasSeqs {
+			id := fmt.Sprintf("file-restorer-imports-aliases:%d", ai)
+			c.Case(id, func() {
+				c.Observe("configs", "file-restorer-reused-with-imports")
+				r := decorator.NewRestorerWithImports("example.com/self", guess.New())
+				r.Fset = token.NewFileSet()
+				fr := r.FileRestorer()
+				for k, src := range srcs {
+					df, err := decorator.NewDecoratorWithImports(token.NewFileSet(), "example.com/self", goast.New()).Parse(src)
+					if err != nil {
+						return
+					}
+					delete(fr.Alias, "fmt")
+					if seq[k] != "" {
+						fr.Alias["fmt"] = seq[k]
+					}
+					c12Via = fr.RestoreFile
+					n := c12Check(c, fmt.Sprintf("%s/file%d", id, k), "file-restorer-reused-with-imports", r, df, src)
+					c12Via = nil
+					if n > 0 {
+						c.Nontrivial(id, fmt.Sprint(k))
+					}
 				}
 			})
 		}
